@@ -35,6 +35,7 @@ VARIABLES
 vars == <<gen, last, pc, cur, until, s3, cancelled, now, nups, lastAt, lastBody>>
 
 Minute == 60000
+MaxWait == 900000       \* any value >= Minute; the invariant does not depend on it
 UploadTimeout == 300000
 NoCur == [g |-> 0, body |-> 0, since |-> 0]
 
@@ -76,12 +77,12 @@ S3Mode == s3' \in {"ok", "fail", "hold"} /\ UNCHANGED <<gen, last, pc, cur, unti
 Cancel == cancelled' = TRUE /\ UNCHANGED <<gen, last, pc, cur, until, s3, now, nups, lastAt, lastBody>>
 Urgent ==
   \/ pc \in {"check", "read", "ubegin"}
-  \/ (pc = "wait" /\ (cancelled \/ now >= until))
+  \/ (pc = "wait" /\ (cancelled \/ now >= until + (MaxWait - Minute)))
   \/ (pc = "upload" /\ (s3 # "hold" \/ MustFail))
 Advance ==
   /\ ~Urgent
   /\ now' \in Int /\ now' > now
-  /\ (pc = "wait" => now' <= until)
+  /\ (pc = "wait" => now' <= until + (MaxWait - Minute))
   /\ UNCHANGED <<gen, last, pc, cur, until, s3, cancelled, nups, lastAt, lastBody>>
 Next == Check \/ Read \/ UBegin \/ UEnd(TRUE) \/ UEnd(FALSE) \/ WaitOver \/ Exit \/ DbWrite \/ S3Mode \/ Cancel \/ Advance
 
